@@ -60,6 +60,15 @@ func TestVerifC27_Registry(t *testing.T) {
 	vkit.Extra("result_kinds", len(vc27ResultKinds))
 }
 
+var vc27QueryResponseIdx = func() int {
+	for i, ty := range vc27Types {
+		if ty.name == "QueryResponse" {
+			return i
+		}
+	}
+	panic("no QueryResponse in the registry")
+}()
+
 func vc27Marshal(ser proto.Serializer, m pilosa.Message) (buf []byte, err error, pv interface{}) {
 	defer func() {
 		if r := recover(); r != nil {
@@ -84,7 +93,12 @@ func TestVerifC27_RoundTrip(t *testing.T) {
 	defer vkit.Flush()
 	var ser proto.Serializer
 	rapid.Check(t, func(t *rapid.T) {
-		ty := vc27Types[rapid.IntRange(0, len(vc27Types)-1).Draw(t, "type")]
+		// QueryResponse (10 result kinds) gets a quarter of the cases; the rest is spread over the other types
+		k := rapid.IntRange(0, len(vc27Types)+len(vc27Types)/3).Draw(t, "type")
+		if k >= len(vc27Types) {
+			k = vc27QueryResponseIdx
+		}
+		ty := vc27Types[k]
 		v := ty.gen(t)
 		want := vc27Canon(v)
 		c := vkit.NewCase().Key(want)
